@@ -106,6 +106,17 @@ CHECKS["C20"] = dict(
     technique="TLA+/TLC refinement checking of a two-level spec, frontier replay (hidden-history VIEW) into the real containers, trace spec with exact equalities against the abstract model",
     ref="5/C20")
 
+CHECKS["C12"] = dict(
+    text="spec/Asm.tla is the streaming assembler as a state machine over tokens (one action per streamer callback mirroring _State, Finalize = the three passes). TLC exhaustively explores all token sequences up to 4 (quick) / 5 (thorough) tokens from 11-13-token vocabularies with trivially_unreachable and implicit_cfi in BOOLEAN and checks on every final state the Level-A clauses Decode, Tiling, TerminatorsEndBlocks, EdgeShape, Fallthrough, Labels, DataConversion, Operands, Alignment, Completes. A seeded sample of the emitted programs is rendered for 11 targets (x64 AT&T/Intel, IA32, ARM64, MIPS32 x ELF/PE, PIE on x86 ELF), assembled by the real Assembler, decoded token-guided with capstone, and judged by TLC with the same operators.",
+    note="Model checking exhaustive within the configs; conformance sampled (4 000 quick / 60 000 thorough). Level-B drift is reported, never a verdict (0). One fixed rendering per token and target; data-token lengths come from the spec, instruction sizes are observed. KF-C12-1 (MIPS32 jr $ra gets a branch edge, not a return) is open.",
+    technique="TLA+/TLC model checking of a token-level assembler machine with spec->code case generation and code->spec trace validation",
+    ref="5/C12")
+CHECKS["C13"] = dict(
+    text="The same state machine over the symbol vocabulary (module symbol sets, allow_undef) and over all chunkings of token sequences: invariants for the MultipleDefinitions/Undef error discipline with per-chunk label visibility, Binding, TempSuffix, and Chunking (chunked result = whole emission with a .text switch at former chunk boundaries). Cases run through the real Assembler chunk by chunk and whole; a third of the single-chunk cases are also inserted with RewritingContext + AllBlocksScope at N in {1,2,3,5} sites (constraints forcing prologue/epilogue chunks) for UniqueNames and Completes.",
+    note="Chunking domain: no forward cross-chunk reference, CFI balanced per chunk, each chunk starts in .text. Rewrites are in domain only for the 5 ABI targets. KF-C13-1 (a patch with an empty section crashes apply()) is open.",
+    technique="TLA+/TLC model checking with spec->code case generation and code->spec trace validation",
+    ref="5/C13")
+
 PENDING = {}
 
 
